@@ -216,6 +216,20 @@ int usim_mem_is_live(const void *p)
 	return mem_shadow[(a - ARENA_BASE) >> 3] == SH_LIVE;
 }
 
+volatile uintptr_t rt_acc_addr;
+
+void usim_node_check(const void *p, unsigned long len, const char *what)
+{
+	uintptr_t a = (uintptr_t) p, i;
+	if (a - ARENA_BASE >= ARENA_SIZE || a + len - ARENA_BASE > ARENA_SIZE)
+		usim_fail("wild-pointer", "%s returned %p, which is not a node the program ever allocated", what, p);
+	for (i = a & ~(uintptr_t) 7; i < a + len; i += 8)
+		if (mem_shadow[(i - ARENA_BASE) >> 3] != SH_LIVE)
+			usim_fail(mem_shadow[(i - ARENA_BASE) >> 3] == SH_FREED ? "use-after-free" : "wild-pointer",
+				"%s returned %p, which is %s", what, p,
+				mem_shadow[(i - ARENA_BASE) >> 3] == SH_FREED ? "a node that has already been freed" : "not (inside) a node the program allocated");
+}
+
 void usim_mem_tag(const void *p, const char *fmt, ...)
 {
 	struct ainfo *ai = exact_alloc((uintptr_t) p);
@@ -473,6 +487,10 @@ static void segv_handler(int sig, siginfo_t *si, void *uc)
 			usim_fail("wild-pointer", "T%d dereferences unmapped address %#lx at pc %#lx (library or scenario code)",
 				cur->id, (unsigned long) a, (unsigned long) pc);
 	}
+	/* an atomic access performed by the runtime itself on behalf of the simulated thread */
+	if (a - rt_acc_addr < 8 || (a == 0 && rt_acc_addr > 0x7fffffffffffUL))
+		usim_fail("wild-pointer", "T%d atomically accesses unmapped address %#lx (library or scenario code)",
+			cur->id, (unsigned long) a);
 	usim_bug("unclassified SIGSEGV at %#lx pc %#lx in T%d", (unsigned long) a, (unsigned long) pc, cur->id);
 }
 
